@@ -153,7 +153,12 @@ def _vf2_inv_map(d: _IsoGraph) -> None:
                     _d[tgt] = {}
                 _d[tgt][src] = '--' + data
     for k, d2 in _d.items():
-        d[k].update(d2)
+        for src, data in d2.items():
+            if src in d[k]:
+                # edges in both directions: keep both labels
+                d[k][src] += ' ' + data
+            else:
+                d[k][src] = data
 
 
 def _vf2_feasible(
